@@ -330,7 +330,7 @@ def main():
     # contracts this check's toy layer uses for routines named in the property's own file list: re-decided here (see common.include_dependency)
     from .common import include_dependency
     if not only or 'dep' in only:
-        include_dependency(chk, tasks, 'C04', '', "ECDH multiplies the peer's point by the private scalar with Point.ScalarMult (toy layer: contract s*P)")
+        include_dependency(chk, tasks, 'C04', 'consts mulg split bound table lookup ladder', "ECDH multiplies the peer's point by the private scalar with Point.ScalarMult (toy layer: contract s*P)")
         include_dependency(chk, tasks, 'C05', 'table lookup basemult key', 'a private scalar d is mapped to its public key with ScalarBaseMult (toy layer: contract d*G)')
         include_dependency(chk, tasks, 'C06', 'decode coords', 'NewPublicKey decodes through Point.SetBytes / NewPointFromBytes (full-width decode claims)')
     chk.run_tasks(tasks)
